@@ -52,7 +52,10 @@ Dec(n) == IF n = Inf THEN Inf ELSE n - 1
 RECURSIVE Conv(_, _), ConvSeq(_, _, _), ConvAlt(_, _, _)
 ConvSeq(ks, p, i) == IF i > Len(ks) THEN EPS
                      ELSE Cat(Conv(ks[i], Append(p, i)), ConvSeq(ks, p, i + 1))
+(* a particle with maxOccurs = 0 corresponds to no component at all: in a      *)
+(* choice it is not an (empty) branch                                         *)
 ConvAlt(ks, p, i) == IF i > Len(ks) THEN NUL
+                     ELSE IF ks[i][4] = 0 THEN ConvAlt(ks, p, i + 1)
                      ELSE Alt(Conv(ks[i], Append(p, i)), ConvAlt(ks, p, i + 1))
 Conv(m, p) ==
   CASE IsLeaf(m)  -> Rep(<<"sym", m[1], m[2], p>>, m[3], m[4])
